@@ -12,470 +12,441 @@ Definition show_fres (r : fres) : string :=
   end.
 Definition check (rs : list rune) : string := digest (show_fres (format_res rs)).
 Definition full (rs : list rune) : string := show_fres (format_res rs).
-Eval vm_compute in ("<<<M40>>>" ++ full (runes_of_ascii "packet
-    len { // " ++ [27880; 37322]%N ++ runes_of_ascii "
-@leftPad( '0'
-    ) // trailing space 
-Logon @lengthOf( _x)
-`100% of %d`
-,char
-    rootA
-, @calculatedFrom( """ ++ [28040; 24687]%N ++ runes_of_ascii """ )
-@leftPad
-    (' ' ) // `tick` ""quote"" 'q'
-i8
-crc , msg_type
-@calculatedFrom( """"	)
-`
-`
-, // `tick` ""quote"" 'q'
-}	options//x
-{}
-options { u8x =true }
-")).
-Eval vm_compute in ("<<<M58>>>" ++ full (runes_of_ascii "packet o { zchar[ 7 ] /// triple
-f32a@calculatedFrom( ""a\""b"")	, @lengthOf( pack
-)
-    options1 ,@calculatedFrom(""abc""
-)
-    Header , @lengthOf( Logon )zchar[4294967296
-    ] asx // packet A { u8 x, }
-@lengthOf(
-// a // b
-// packet A { u8 x, }
-u )
-`100% of %d`	, @leftPad (' ' // trailing space 
-)	@calculatedFrom( ""`tick`"" )
-uint16 x_y_z`doc` , @tag( 00 )zchar[ //	t
-1 ] // c
-u,@calculatedFrom(""a\""b"" ) //
-u8x uint8x,
-char[1 ]
-metadata , }
-")).
-Eval vm_compute in ("<<<M77>>>" ++ full (runes_of_ascii "packet string_ /// triple
-{ match
-MetaDataX as
-    /// triple
-    matchKey {[ ""1"" , ""x y"" ]
-: chars,
-}, @leftPad
-    ( ) char[]
-// c
-//	t
-body @lengthOf( // `tick` ""quote"" 'q'
-int ) , int16
-T
-, string
-// 50% %s
-/// triple
-int  @lengthOf( uint8x ),repeat chars Foo // `tick` ""quote"" 'q'
-, }	options {
-    msg_type
-    // a // b
-    =true
-    f32a =  ""packet"" } root packet u128{	zchar[
-007] metadata  @lengthOf( int)
-`100% of %d`,
-    }")).
-Eval vm_compute in ("<<<M95>>>" ++ full (runes_of_ascii "root packet leftPad  {T
-@lengthOf(	A )
-`" ++ [28040; 24687; 31867; 22411]%N ++ runes_of_ascii "` , Header@lengthOf( // trailing space 
-As  ) ,
-string calculatedFrom
-`" ++ [233]%N ++ runes_of_ascii "` , @calculatedFrom(// " ++ [128512]%N ++ runes_of_ascii " emoji
-""a	b"") repeat x_y_z {
-    char[]T , uint8x { char[
-007]
-    Packet @calculatedFrom( ""`tick`""
-)`100% of %d`
-,
-    } ,
-} ,
-char[]
-    T @lengthOf( f32a
-) ,
-    //x
-    options1 Z9_//	t
-,
-char[ 007 ] body `it's` , repeat zchar[42 ]
-Packet `{ , }` , } // a // b")).
-Eval vm_compute in ("<<<M261>>>" ++ full (runes_of_ascii "packet u8x { char[]
-f32a @lengthOf(Foo ) `100% of %d` , repeat
-i8i8 {  A f32a , x `say ""hi""`,
-    // @lengthOf(
-    repeat body rootA `
-`
-    , }
-, }
+Eval vm_compute in ("<<<M1437>>>" ++ full (runes_of_ascii "
 
-")).
-Eval vm_compute in ("<<<M264>>>" ++ full (runes_of_ascii "root packet u8x
-    {
-    // trailing space 
-    repeat u64 Pad
-    , i64_ @calculatedFrom(
-""x y"" /// triple
-) `100% of %d`
-// @lengthOf(
-// a // b
-, @calculatedFrom(
-""a	b"" ) @lengthOf( Header ) @lengthOf( zchar ) i32
-    A @lengthOf( falsey)//x
-,	repeat zchar[// a // b
-10 ]
-f32a  `
-` ,  repeat
-    f64
-rootA
-    `line1
-line2`
-, // packet A { u8 x, }
-match string_
-    as
-    o { 65535 : // a // b
-options1 ,
-// a // b
-// " ++ [128512]%N ++ runes_of_ascii " emoji
-""// no comment"": packetx ""\" ++ [233]%N ++ runes_of_ascii """
-// c
-//x
-: lengthOf, 65535 :
-BodyLength ,
-""packet"":
-a1
-, }
-    , @tag(
-4294967296) @tag( 7
-    )@rightPad (	'\x00'
-    )
-    repeat uint64 i8i8 , char[
-    42 ]string_
-`// not a comment` , } MetaData pack
-    {x o
-    `two words` , x As,uint64 BodyLength
-    `// not a comment`,x a1`` , T
-int
-`it's` ,
-} MetaData falsey
-// a // b
-// 50% %s
-{ Header BodyLength `` , }root packet trueish {i16 // @lengthOf(
-trueish	@calculatedFrom( ""`tick`"")`line1
-line2`
-, f64 As ,string T	@lengthOf(
-    pack )	`100% of %d` , @lengthOf(
-    matchKey )repeat // " ++ [128512]%N ++ runes_of_ascii " emoji
-char[ 00 ]
-    lengthOf
-// packet A { u8 x, }
-// c
-`line1
-line2` , zchar[ 3 ]_x @calculatedFrom(
-""`tick`"" )
-    // " ++ [128512]%N ++ runes_of_ascii " emoji
-    ,
-// " ++ [27880; 37322]%N ++ runes_of_ascii "
-// trailing space 
-@tag( 00) //	t
-zchar[4294967296
-]  msg_type , repeat body,
-Logon , @tag( 1
-    ) @calculatedFrom( ""packet"")
-zchar[ 3 ] Z9_ , }
-")).
-Eval vm_compute in ("<<<M267>>>" ++ full (runes_of_ascii "// " ++ [128512]%N ++ runes_of_ascii " emoji
-packet  Header {metadata
-, T @calculatedFrom( ""// no comment""
-)
-    `100% of %d` , // " ++ [128512]%N ++ runes_of_ascii " emoji
-options1
-i64_ , } options
-{
-    /// triple
-    len =	' ' int = /// triple
-i64 tag
-=0123456789 calculatedFrom
-= // packet A { u8 x, }
-""\" ++ [233]%N ++ runes_of_ascii """
-} options
-{As  = false matchKey =""\n"" ; }options {
-pack
-= ""a\\"" ; float = """ ++ [28040; 24687]%N ++ runes_of_ascii """ A =
-7 i8i8 =	42; }
-")).
-Eval vm_compute in ("<<<M268>>>" ++ full (runes_of_ascii "packet x_y_z {repeat
-asx { falsey	@lengthOf( u )`100% of %d`
-    ,repeat
-matchKey { x_y_z@calculatedFrom(""a\\""
-// trailing space 
-// trailing space 
-)
-, i64
-// 50% %s
+  // 50% %s
+
+  packet
+	crc{ char[65535 ]
+    Foo`" ++ [233]%N ++ runes_of_ascii "`	, calculatedFrom Header ,
+stringy
+MetaDataX  , @lengthOf(
 //
-calculatedFrom @calculatedFrom( ""// no comment"" )  `{ , }` , }// 50% %s
-,
-// c
-//	t
-char[ // 50% %s
-007 ] Foo @calculatedFrom( ""abc""
-), }
-    , repeat
-    uint32 Pad, repeat Logon
-{
-Logon
-    {
-    char[] packetx @calculatedFrom(
-// " ++ [128512]%N ++ runes_of_ascii " emoji
-// `tick` ""quote"" 'q'
-""it's"" )
-`
-` ,
-}, i8 len, asx , } , }
-")).
-Eval vm_compute in ("<<<M368>>>" ++ full (runes_of_ascii "root packet a1 {i8 A @calculatedFrom( //
-""\" ++ [233]%N ++ runes_of_ascii """ )
-, @lengthOf( int ) @lengthOf(  len) @lengthOf( f32a )
-string
-u8x `say ""hi""`
-//	t
-// " ++ [128512]%N ++ runes_of_ascii " emoji
-, char[
-    00 ]  As@lengthOf(  Z9_ )
-, repeat leftPad ,  repeat  x_y_z
-, @rightPad( '0') f64 lengthOf @calculatedFrom( ""`tick`"" ) `100% of %d`// " ++ [27880; 37322]%N ++ runes_of_ascii "
-, repeat char  Foo// " ++ [27880; 37322]%N ++ runes_of_ascii "
-, match msg_type as x_y_z
-    { [ 255 , 7  ,10 ,
-""a	b""
-] : Foo,
-    // a // b
-    } ,
-}
-")).
-Eval vm_compute in ("<<<M965>>>" ++ full (runes_of_ascii "packet A {
-    u16 len @lengthOf(body) `100% of %s %d %v`,
-    u32 crc @calculatedFrom(""CRC32"") `100% of %s %d %v`,
-    string body,
-}")).
-Eval vm_compute in ("<<<M971>>>" ++ full (runes_of_ascii "packet A {
-    u16 len @lengthOf(body) `%`,
-    u32 crc @calculatedFrom(""CRC32"") `%`,
-    string body,
-}")).
-Eval vm_compute in ("<<<M977>>>" ++ full (runes_of_ascii "packet A {
-    u16 len @lengthOf(body) `%%d%!`,
-    u32 crc @calculatedFrom(""CRC32"") `%%d%!`,
-    string body,
-}")).
-Eval vm_compute in ("<<<M1431>>>" ++ full (runes_of_ascii "packet A {
-    u16 len @lengthOf(body) `%!d(MISSING)%!!(MISSING)!(MISSING)`,
-    u32 crc @calculatedFrom(""CRC32"") `%!d(MISSING)%!!(MISSING)!(MISSING)`,
-    string body,
-}")).
-Eval vm_compute in ("<<<M1659>>>" ++ full (runes_of_ascii "root packet u8x {
-    // trailing space 
-    repeat u64 Pad,
-    i64_ @calculatedFrom(""x y"") `100%!o(MISSING)f %!d(MISSING)`,
-    @calculatedFrom(""a	b"")
-    @lengthOf(Header)
-    @lengthOf(zchar)
-    i32 A @lengthOf(falsey),
-    repeat zchar[10] f32a `
-    `,
-    repeat f64 rootA `line1
-    line2`,// packet A { u8 x, }
-    match string_ as o {
-        65535 : options1,
-        // a // b
-        // " ++ [128512]%N ++ runes_of_ascii " emoji
-        ""// no comment"" : packetx,
-        ""\" ++ [233]%N ++ runes_of_ascii """ : lengthOf,
-        65535 : BodyLength,
-        ""packet"" : a1,
-    },
-    @tag(4294967296)
-    @tag(7)
-    @rightPad('\x00')
-    repeat uint64 i8i8,
-    char[42] string_ `// not a comment`,
-}
+    BodyLength ) 
+lengthOf
+	{  f32
+	u
 
-MetaData pack {
-    x o `two words`,
-    x As,
-    uint64 BodyLength `// not a comment`,
-    x a1 ``,
-    T int `it's`,
-}
+`100% of %d`  ,
 
-MetaData falsey {
-    Header BodyLength ``,
-}
-
-root packet trueish {
-    i16 trueish @calculatedFrom(""`tick`"") `line1
-    line2`,
-    f64 As,
-    string T @lengthOf(pack) `100%!o(MISSING)f %!d(MISSING)`,
-    @lengthOf(matchKey)
-    repeat char[00] lengthOf `line1
-    line2`,
-    zchar[3] _x @calculatedFrom(""`tick`""),
-    // " ++ [27880; 37322]%N ++ runes_of_ascii "
-    // trailing space 
-    @tag(00)
-    //	t
-    zchar[4294967296] msg_type,
-    repeat body,
-    Logon,
-    @tag(1)
-    @calculatedFrom(""packet"")
-    zchar[3] Z9_,
-}")).
-Eval vm_compute in ("<<<M1702>>>" ++ full (runes_of_ascii "packet o {
-    zchar[7] f32a @calculatedFrom(""a\""b""),
-    @lengthOf(pack)
-    options1,
-    @calculatedFrom(""abc"")
-    Header,
-    @lengthOf(Logon)
-    zchar[4294967296] asx @lengthOf(u) `100%!!(MISSING)o(MISSING)f %!!(MISSING)d(MISSING)`,
-    @leftPad(' ')
-    @calculatedFrom(""`tick`"")
-    uint16 x_y_z `doc`,
-    @tag(00)
-    zchar[1] u,
-    @calculatedFrom(""a\""b"")
-    //
-    u8x uint8x,
-    char[1] metadata,
-}")).
-Eval vm_compute in ("<<<M1703>>>" ++ full (runes_of_ascii "packet x_y_z {
-    repeat asx {
-        falsey @lengthOf(u) `100%!o(MISSING)f %!d(MISSING)`,
-        repeat matchKey {
-            x_y_z @calculatedFrom(""a\\""),
-            i64 calculatedFrom @calculatedFrom(""// no comment"") `{ , }`,
-        },
-        // c
-        //	t
-        char[007] Foo @calculatedFrom(""abc""),
-    },
-    repeat uint32 Pad,
-    repeat Logon {
-        Logon {
-            char[] packetx @calculatedFrom(""it's"") `
-            `,
-        },
-        i8 len,
-        asx,
-    },
-}")).
-Eval vm_compute in ("<<<M1716>>>" ++ full (runes_of_ascii "  packet
-x_y_z
-    {repeat
-asx{
-
-    falsey@lengthOf(	u ) `100% of %d`
-, repeat
-
-matchKey { 
-x_y_z
-	@calculatedFrom( ""a\\"" 
-        // trailing space 
-  	// trailing space 
-)
-
-, i64 
+T
+@lengthOf(
+	leftPad)
+	,  f32
 // 50% %s
-  //
-		calculatedFrom  @calculatedFrom(
-""// no comment"" )`{ , }`  ,
-} 	 // 50% %s
-	,
+	  f32a `it's`	, zchar[  255
+]  crc
+    ,  }
+,
+Pad
+@calculatedFrom(
+	""abc"") , @lengthOf(
+repeatCount
+
+) @rightPad
+
+    (	) 
+@tag( 
+1 // trailing space 
+	  )//	t
+  char[7
+]
+
+MetaDataX @calculatedFrom(
+
+""\n"" )	,
+	repeat
+
+    uint64
+pack,
+	@calculatedFrom(	""CRC32"")repeat
+    x_y_z  msg_type
+    `say ""hi""` 
+,
+	}
+
+")).
+Eval vm_compute in ("<<<M1462>>>" ++ full (runes_of_ascii "
 // c
-  //	t
 
-  char[  // 50% %s
-    007]Foo	@calculatedFrom(
-
-    ""abc""
-
-    )  ,
-
-}
-,repeat
-uint32  Pad
+packet
+	BodyLength
+	{
+@tag(
+42 )Header	tag	`u8 x,`
     ,
 
-repeat Logon
+    }	options{  }
 
+packet 
+string_
+	{	float32
+rootA , uint8
+
+MetaDataX	`crlf
+line`
+
+    , charz
+    // " ++ [128512]%N ++ runes_of_ascii " emoji
+, @tag(
+4294967296
+	)
+    @rightPad	(
+
+'\x00')
+
+@tag(
+
+    7
+)
+
+    // c
+u32	u128 	 //x
+  @calculatedFrom(
+
+    ""\" ++ [233]%N ++ runes_of_ascii """),}
+")).
+Eval vm_compute in ("<<<M1485>>>" ++ full (runes_of_ascii "
+// c" ++ [12288]%N ++ runes_of_ascii "
+
+	packet A
+	{  }
+
+")).
+Eval vm_compute in ("<<<M1490>>>" ++ full (runes_of_ascii "  // c" ++ [8287]%N ++ runes_of_ascii "
+
+  packet
+
+    A {
+}
+")).
+Eval vm_compute in ("<<<M1694>>>" ++ full (runes_of_ascii "
+// top
+
+options  // c0
+	{// c1
+
+  A // c2
+    =// c3
+  ""// no comment""	// c4
+    }	// c5
+")).
+Eval vm_compute in ("<<<M1796>>>" ++ full (runes_of_ascii "// top
+
+	packet 	 // c0
+      B 	 // c1
+      {  
+      // c2
+  u8	a	// c4
+
+  ,
+    // c5
+    } // c6a
+    // c6b
+	root 
+  // c7
+  packet  // c8a
+	// c8b
+  P  // c9a
+	// c9b
+    {
+	u8 K // c12a
+  // c12b
+, // c13
+    u64 // c14a
+  // c14b
+    L	// c15
+
+@lengthOf(	// c16
+		Body	// c17
+)  // c18
+	, match// c20a
+  // c20b
+    K // c21
+as	// c22
+  Body
+{  // c24a
+    	// c24b
+  1	// c25a
+
+// c25b
+      :  // c26
+B
+, // c28a
+	// c28b
+	}  ,	// c30a
+    	// c30b
+	}  // c31a
+// c31b
+")).
+Eval vm_compute in ("<<<M1891>>>" ++ full (runes_of_ascii "/// triple
+
+  packet  falsey{ }packet
+	Logon
+
+    {
+@tag(// @lengthOf(
+
+	1	) // c
+	body
+
+a1
+    ,
+	repeat
+
+    BodyLength ,repeat 
+Foo
+{ 
+match	rootA	as x	{[ 
+3 
+] 
+: 
+//
+	  i8i8 },
+    match
+    charz 
+as  // a // b
+  charz
+
+    {  007
+	: 
+Packet ,	[ ""// no comment""
+	] 	 // trailing space 
+
+:	/// triple
+
+  A,
+[
+
+    10]:  float
+	,
+
+    [	""`tick`"" ,  10]:
+    int
+
+    ,
+
+    } 
+, }
+
+    ,  // " ++ [27880; 37322]%N ++ runes_of_ascii "
+
+	repeat
+
+    u8x
+,asx
+
+    { int32
+    Packet
+	@calculatedFrom( 
+
+// 50% %s
+// a // b
+  ""// no comment"")
+, }
+	,
+    @lengthOf(
+leftPad )	int8
+	float 
+	    //
+
+  // @lengthOf(
+  	@calculatedFrom(  ""CRC32"" )
+
+    ,
+    lengthOf 	 // packet A { u8 x, }
+  {
+char[ 65535] string_@calculatedFrom(
+"""" ) 	 // a // b
+    ,
+}
+	, len@calculatedFrom(""" ++ [233]%N ++ runes_of_ascii "t" ++ [233]%N ++ runes_of_ascii """ )
+,  @lengthOf(
+
+    As
+) 
+char[
+	1	]
+    BodyLength// " ++ [27880; 37322]%N ++ runes_of_ascii "
+  , }	// a // b
+")).
+Eval vm_compute in ("<<<M1930>>>" ++ full (runes_of_ascii "//	t
+
+packet 
+MetaDataX
+
+{@leftPad(  )
+repeat
+
+    float64 
+asx 
+, } MetaData 
+Foo
+{  // a // b
+	char[
+65535
+	]Pad , }
+    packet body  // 50% %s
 {
-Logon
 
-{
-	char[] packetx  @calculatedFrom( 
+    match 
+asx	as
+    charz
+{  // `tick` ""quote"" 'q'
+	  10
+: u8x	,
 
-// " ++ [128512]%N ++ runes_of_ascii " emoji
-	  // `tick` ""quote"" 'q'
+    ""it's""
+    : 
+leftPad
 
-  ""it's"" )	`
-`	,	} ,
-    i8
+    , 3
+: metadata 
+        // trailing space 
+    //x
+  	, ""it's""
+    : x, [ 65535 ,  """ ++ [233]%N ++ runes_of_ascii "t" ++ [233]%N ++ runes_of_ascii """
+]
+	:
+    u128  ,
+    10
+
+:	// @lengthOf(
 
 len
-    ,	asx	, 
-} ,
+	},repeat
+f32  rootA
+	``
 
+    , // 50% %s
+  @leftPad( 
+
+//
+  ' '
+    )
+
+repeat
+
+    i64  BodyLength // c
+  , repeatCount
+
+    {
+i16  crc
+@lengthOf(	u128
+
+)  ,
     }
-")).
-Eval vm_compute in ("<<<M1746>>>" ++ full (runes_of_ascii "// " ++ [128512]%N ++ runes_of_ascii " emoji
-packet Header {
-    metadata,
-    T @calculatedFrom(""// no comment"") `100%!!(MISSING)o(MISSING)f %!!(MISSING)d(MISSING)`,// " ++ [128512]%N ++ runes_of_ascii " emoji
-    options1 i64_,
-}
+    ,
+u16  // " ++ [27880; 37322]%N ++ runes_of_ascii "
+	  u  @lengthOf( f32a
 
-options {
-    /// triple
-    len = ' '
-    int = i64
-    tag = 0123456789
-    calculatedFrom = ""\" ++ [233]%N ++ runes_of_ascii """
-}
+    ) 
+`// not a comment` , // trailing space 
+  len
+{
 
-options {
-    As = false
-    matchKey = ""\n"";
-}
+match
+    Logon
+as // @lengthOf(
+      Foo
+	{""" ++ [233]%N ++ runes_of_ascii "t" ++ [233]%N ++ runes_of_ascii """
+	: stringy
 
-options {
-    pack = ""a\\"";
-    float = """ ++ [28040; 24687]%N ++ runes_of_ascii """
-    A = 7
-    i8i8 = 42;
-}")).
-Eval vm_compute in ("<<<M1778>>>" ++ full (runes_of_ascii "packet A {
-    u16 len @lengthOf(body) `100%!!(MISSING)o(MISSING)f %!!(MISSING)s(MISSING) %!!(MISSING)d(MISSING) %!!(MISSING)v(MISSING)`,
-    u32 crc @calculatedFrom(""CRC32"") `100%!!(MISSING)o(MISSING)f %!!(MISSING)s(MISSING) %!!(MISSING)d(MISSING) %!!(MISSING)v(MISSING)`,
-    string body,
-}")).
-Eval vm_compute in ("<<<M1793>>>" ++ full (runes_of_ascii "root packet leftPad {
-    T @lengthOf(A) `" ++ [28040; 24687; 31867; 22411]%N ++ runes_of_ascii "`,
-    Header @lengthOf(As),
-    string calculatedFrom `" ++ [233]%N ++ runes_of_ascii "`,
-    @calculatedFrom(""a	b"")
-    repeat x_y_z {
-        char[] T,
-        uint8x {
-            char[007] Packet @calculatedFrom(""`tick`"") `100%!!(MISSING)o(MISSING)f %!!(MISSING)d(MISSING)`,
-        },
+    ,
+10 :msg_type ,  //	t
+	[
+""\n""
+,""`tick`""
+,
+""abc""
+
+,""""  ,  007  ,  1 
+,	""a\""b""
+	]  :
+i64_ 	 // packet A { u8 x, }
+
+  ,255  
+  //x
+    : T
+    ,
+
+""{,}"":
+f32a
     },
-    char[] T @lengthOf(f32a),
-    //x
-    options1 Z9_,
-    char[007] body `it's`,
-    repeat zchar[42] Packet `{ , }`,
-}// a // b")).
+
+string
+
+    tag @lengthOf(Z9_ ), 
+  // a // b
+u32 charz
+    `crlf
+line`	,
+u8x @lengthOf( 	 /// triple
+      rootA
+    )
+,}, float
+	,
+int8  repeatCount
+@lengthOf(f32a
+
+)
+`crlf
+line`
+
+    ,
+    zchar[
+    // packet A { u8 x, }
+      7  // a // b
+	]
+    BodyLength 
+@lengthOf(  string_  // a // b
+
+)	,
+
+    } 
+packet u128  {	x  `// not a comment`,
+}//
+
+packet
+
+x { 
+A`doc`
+
+    ,
+	Packet 
+@calculatedFrom(	// `tick` ""quote"" 'q'
+    ""\" ++ [233]%N ++ runes_of_ascii """
+    )
+
+`say ""hi""` , repeat  string
+asx 
+, @lengthOf(
+
+MetaDataX
+
+)
+	repeat char[4294967296  //
+		] 
+string_	`u8 x,`
+
+,
+@lengthOf( charz ) char[
+
+    0123456789
+	]
+	f32a
+    `say ""hi""`
+,  }
+
+")).
+Eval vm_compute in ("<<<M1961>>>" ++ full (runes_of_ascii "
+
+  // c
+
+MetaData
+
+tag
+
+    { 
+}
+")).
